@@ -915,8 +915,8 @@ def _atom_key(expr):
     `a not in b` of `a in b`; `a is not b` of `a is b`."""
     if isinstance(expr, ast.Compare) and len(expr.ops) == 1:
         op, l, r = expr.ops[0], expr.left, expr.comparators[0]
-        if isinstance(op, (ast.Eq, ast.NotEq, ast.Lt, ast.LtE, ast.Gt, ast.GtE)) and \
-                any(isinstance(x, ast.BinOp) and isinstance(x.op, (ast.Add, ast.Sub)) for side in (l, r) for x in ast.walk(side)):
+        if isinstance(op, (ast.Lt, ast.LtE, ast.Gt, ast.GtE)) or (isinstance(op, (ast.Eq, ast.NotEq)) and
+                any(isinstance(x, ast.BinOp) and isinstance(x.op, (ast.Add, ast.Sub)) for side in (l, r) for x in ast.walk(side))):
             # integer-linear comparison: keyed by the normal form of (left - right), so `i == n - 1` and `i + 1 == n` are one atom
             from .poly import poly, show, NotPoly
             try:
